@@ -206,17 +206,29 @@ func OpenDB(args ...interface{}) (massdb.MassDB, error) {
 	if !ok {
 		return nil, ErrDBWrongType
 	}
+	// the header must describe the same (pubKey, bitLength) as the file name it was opened by
+	if !hmB.HashMap.matches(pubKey, bitLength) {
+		hmB.Close()
+		return nil, ErrDBWrongIdentity
+	}
 
 	var hmA *HashMapA
 	hmA = nil
 	if plotted, _ := hmB.Progress(); !plotted {
 		hmAi, err := LoadHashMap(pathA)
 		if err != nil {
+			hmB.Close()
 			return nil, err
 		}
 		hmA, ok = hmAi.(*HashMapA)
 		if !ok {
+			hmB.Close()
 			return nil, ErrDBWrongType
+		}
+		if !hmA.HashMap.matches(pubKey, bitLength) {
+			hmA.Close()
+			hmB.Close()
+			return nil, ErrDBWrongIdentity
 		}
 	}
 
